@@ -69,7 +69,7 @@ theorem rr_vf_indep_d50 (n : ℕ) (d50 d50' k alpha : ℝ) (hd : d50 ≠ 0) (hd'
     rrVf n d50 k alpha = rrVf n d50' k alpha := by
   simp only [rrVf, isZero_false_of_ne hd, isZero_false_of_ne hd']
 
-/-- the un-normalised bin fractions add up to F(a99) − F(a01) (telescoping) -/
+/-- (helper, not a clause of the property) the un-normalised bin fractions add up to F(a99) − F(a01) (telescoping) -/
 theorem rr_vf0_telescopes (n : ℕ) (k alpha : ℝ) :
     ((List.range n).map (rrVf0 n k alpha)).sum = rrVn n k alpha n - rrVn n k alpha 0 := by
   have h : rrVf0 n k alpha = fun i => rrVn n k alpha (i + 1) - rrVn n k alpha i := rfl
@@ -130,8 +130,7 @@ theorem ln_vf_indep_d50 (n : ℕ) (d50 d50' sigma : ℝ) (hd : 0 < d50) (hd' : 0
 
 /-! ## the d95 rule (psf.rosin_rammler_fit, psf.log_normal_fit) -/
 
-theorem log_half_neg : Real.log 0.5 < 0 := Real.log_neg (by norm_num) (by norm_num)
-theorem log_005_neg : Real.log 0.05 < 0 := Real.log_neg (by norm_num) (by norm_num)
+
 
 /-- after the Rosin-Rammler fit the 95-th percentile does not exceed the maximum stable size -/
 theorem rr_fit_d95_le_dmax (d50 dmax alpha : ℝ) (ha : 0 < alpha) :
@@ -229,26 +228,35 @@ example : ∃ d50 dmax alpha : ℝ, 0 < alpha ∧ 0 < dmax ∧ dmax < rrD95 d50 
 
 /-! ## zero flow -/
 
-theorem mass2vol_zero (rho : ℝ) : mass2vol [(0 : ℝ)] rho = 0 := by
-  simp [mass2vol, Num.real_sum]
 
-/-- `get_distributions`: a zero median yields the empty distribution, whatever the pdf and its parameters -/
+/-- (helper, not a clause of the property) `get_distributions`: a zero median yields the empty distribution, whatever the pdf and its parameters -/
 theorem getDist_zero (pdf n : ℕ) (k : ℝ) (alpha : Option ℝ) (s : ℝ) : getDist pdf n (0 : ℝ) k alpha s = some ([], []) := by
   have : isZero (0 : ℝ) = true := (isZero_iff 0).mpr rfl
   simp [getDist, this]
 
-/-- sintef: the requested phase has zero flow ⇒ median 0 and no maximum stable size (for any other input) -/
-theorem sintef_zero_flow (dmaxGas dpRoot d0 rhoGas rhoOil mu_p sigma rho mu : ℝ) (mGas mOil : List ℝ) (useD95 : Bool) :
-    (¬ 0 < mGas.sum → (sintef dmaxGas dpRoot d0 mGas rhoGas mOil rhoOil mu_p sigma rho mu 0 useD95).1 = 0 ∧
+/-- sintef: the requested phase has zero flow AND THE OTHER PHASE FLOWS ⇒ median 0 and no maximum stable size.
+    (With neither phase flowing the code raises ZeroDivisionError — known finding — and nothing is claimed; that this
+    configuration is also free of domain errors is `sintef_defined_zero_gas` / `sintef_defined_zero_oil`.) -/
+theorem sintef_zero_flow (dmaxGas dpRoot d0 rhoGas rhoOil mu_p sigma rho mu : ℝ) (mGas mOil : List ℝ) (useD95 : Bool)
+    (hrg : 0 < rhoGas) (hro : 0 < rhoOil) :
+    (¬ 0 < mGas.sum → 0 < mOil.sum → 0 < sintefQ mGas rhoGas + sintefQ mOil rhoOil ∧
+        (sintef dmaxGas dpRoot d0 mGas rhoGas mOil rhoOil mu_p sigma rho mu 0 useD95).1 = 0 ∧
         (sintef dmaxGas dpRoot d0 mGas rhoGas mOil rhoOil mu_p sigma rho mu 0 useD95).2.1 = none) ∧
-    (¬ 0 < mOil.sum → (sintef dmaxGas dpRoot d0 mGas rhoGas mOil rhoOil mu_p sigma rho mu 1 useD95).1 = 0 ∧
+    (¬ 0 < mOil.sum → 0 < mGas.sum → 0 < sintefQ mGas rhoGas + sintefQ mOil rhoOil ∧
+        (sintef dmaxGas dpRoot d0 mGas rhoGas mOil rhoOil mu_p sigma rho mu 1 useD95).1 = 0 ∧
         (sintef dmaxGas dpRoot d0 mGas rhoGas mOil rhoOil mu_p sigma rho mu 1 useD95).2.1 = none) := by
   constructor
-  · intro h
-    simp [sintef, sintefQ, sintefModel, rrFit, Num.real_sum, h]
-  · intro h
-    simp [sintef, sintefQ, sintefModel, rrFit, Num.real_sum, h]
+  · intro h h'
+    refine ⟨?_, by simp [sintef, sintefQ, sintefModel, rrFit, Num.real_sum, h]⟩
+    simp only [sintefQ, mass2vol, Num.real_sum, Num.real_zero, h, h', if_false, if_true, zero_add]
+    exact div_pos h' hro
+  · intro h h'
+    refine ⟨?_, by simp [sintef, sintefQ, sintefModel, rrFit, Num.real_sum, h]⟩
+    simp only [sintefQ, mass2vol, Num.real_sum, Num.real_zero, h, h', if_false, if_true, add_zero]
+    exact div_pos h' hrg
 
+/-- li_etal: zero flow of the requested phase ⇒ median 0 and no maximum stable size; since fix 9f1b754 this includes the
+    case of neither phase flowing (`liEtal_defined_no_flow`: nothing undefined is evaluated there) -/
 theorem liEtal_zero_flow (dmaxGas d0 rhoGas rhoOil mu_p sigma rho mu : ℝ) (mGas mOil : List ℝ) :
     (¬ 0 < mGas.sum → (liEtal dmaxGas d0 mGas rhoGas mOil rhoOil mu_p sigma rho mu 0).1 = 0 ∧
         (liEtal dmaxGas d0 mGas rhoGas mOil rhoOil mu_p sigma rho mu 0).2.1 = none) ∧
@@ -260,95 +268,236 @@ theorem liEtal_zero_flow (dmaxGas d0 rhoGas rhoOil mu_p sigma rho mu : ℝ) (mGa
   · intro h
     simp [liEtal, liEtalModel, mass2vol, rrFit, Num.real_sum, h]
 
+/-- wang_etal: zero gas flow AND a flowing liquid ⇒ median 0 and no maximum stable size (with neither phase flowing the
+    code raises ZeroDivisionError — known finding — and nothing is claimed) -/
 theorem wang_zero_flow (dmaxGas rhoA rhoB d0 rho_g mu_g sigma_g rho mu rho_l P : ℝ) (mG mL : List ℝ)
-    (h : ¬ 0 < mG.sum) :
+    (h : ¬ 0 < mG.sum) (hl : 0 < mL.sum) (hrl : 0 < rho_l) :
+    0 < mass2vol mG rho_g + wangQl mL rho_l ∧
     (wang dmaxGas rhoA rhoB d0 mG rho_g mu_g sigma_g rho mu mL rho_l P).1 = 0 ∧
     (wang dmaxGas rhoA rhoB d0 mG rho_g mu_g sigma_g rho mu mL rho_l P).2.2.2.1 = none := by
-  simp [wang, wangModel, mass2vol, lnFit, Num.real_sum, h]
+  refine ⟨?_, by simp [wang, wangModel, mass2vol, lnFit, Num.real_sum, h]⟩
+  have hz : isZero mL.sum = false := isZero_false_of_ne hl.ne'
+  simp only [wangQl, mass2vol, Num.real_sum, hz, Num.real_zero, h, hl, if_false, if_true, zero_add, Bool.false_eq_true]
+  exact div_pos hl hrl
 
-/-- ModelBase: a phase with zero mass flow yields the empty distribution, for every model / pdf choice and every
-    other input (oracles included) -/
+/-- ModelBase: a gas phase with zero mass flow, the oil flowing, yields the empty distribution — for the model / pdf choices
+    that need NO pdf conversion (wang_etal + lognormal, li_etal + rosin-rammler).  Nothing here rests on the totalisation
+    of an operation outside its domain: `wang_defined_zero_gas`, `liEtal_defined_zero_gas`. -/
 theorem zero_flow_empty_gas (dmaxGas rhoA rhoB : ℝ) (modelGas pdfGas nbins : ℕ)
-    (d0 mOil rhoGas muGas sigmaGas rhoOil rho mu P : ℝ) :
+    (d0 mOil rhoGas muGas sigmaGas rhoOil rho mu P : ℝ) (hOil : 0 < mOil)
+    (hcombo : (modelGas = 0 ∧ pdfGas = 1) ∨ (modelGas = 1 ∧ pdfGas = 0)) :
     mbGas dmaxGas rhoA rhoB modelGas pdfGas nbins d0 0 mOil rhoGas muGas sigmaGas rhoOil rho mu P = some ([], []) := by
   have hz : isZero (0 : ℝ) = true := (isZero_iff 0).mpr rfl
-  by_cases hm : modelGas = 0 <;> by_cases hp : pdfGas = 0 <;> by_cases hp1 : pdfGas = 1 <;>
-    simp [mbGas, hm, hp, hp1, wang, wangModel, liEtal, liEtalModel, mass2vol, lnFit, rrFit, ln2rr, rr2ln, getDist, hz,
-      Num.real_sum]
+  rcases hcombo with ⟨hm, hp⟩ | ⟨hm, hp⟩ <;>
+    simp [mbGas, hm, hp, wang, wangModel, liEtal, liEtalModel, mass2vol, lnFit, rrFit, getDist, hz, Num.real_sum]
 
-theorem zero_flow_empty_oil (dmaxGas dpRoot : ℝ) (modelOil pdfOil nbins : ℕ)
-    (d0 mGas rhoGas rhoOil muOil sigmaOil rho mu : ℝ) :
-    mbOil dmaxGas dpRoot modelOil pdfOil nbins d0 mGas 0 rhoGas rhoOil muOil sigmaOil rho mu = some ([], []) := by
+/-- the same for the choices that DO convert the pdf (wang_etal + rosin-rammler through `ln2rr`, li_etal + lognormal
+    through `rr2ln`).  *partial*: the conversion evaluates log(0) on the zero median; the code does this too (NumPy: −inf
+    and a divide-by-zero signal — the known findings `FloatingPointError:ln2rr|rr2ln:log-of-zero-median`), the median 0 is
+    passed through unchanged and `get_distributions` returns the empty arrays; here the value of `Real.log 0` is simply
+    not used.  The statement is about the RESULT only, not about definedness. -/
+theorem zero_flow_empty_gas_converted_partial (dmaxGas rhoA rhoB : ℝ) (modelGas pdfGas nbins : ℕ)
+    (d0 mOil rhoGas muGas sigmaGas rhoOil rho mu P : ℝ) (hOil : 0 < mOil)
+    (hcombo : (modelGas = 0 ∧ pdfGas = 0) ∨ (modelGas = 1 ∧ pdfGas = 1)) :
+    mbGas dmaxGas rhoA rhoB modelGas pdfGas nbins d0 0 mOil rhoGas muGas sigmaGas rhoOil rho mu P = some ([], []) := by
   have hz : isZero (0 : ℝ) = true := (isZero_iff 0).mpr rfl
-  by_cases hm : modelOil = 0 <;> by_cases hp : pdfOil = 1 <;>
-    simp [mbOil, hm, hp, sintef, sintefQ, sintefModel, liEtal, liEtalModel, mass2vol, rrFit, rr2ln, getDist, hz,
-      Num.real_sum]
+  rcases hcombo with ⟨hm, hp⟩ | ⟨hm, hp⟩ <;>
+    simp [mbGas, hm, hp, wang, wangModel, liEtal, liEtalModel, mass2vol, lnFit, rrFit, ln2rr, rr2ln, getDist, hz, Num.real_sum]
 
-
-/-! ## "never a division by zero" -/
-
-theorem pi_pos : (0 : ℝ) < Model.Psf.pi := by simp only [Model.Psf.pi, Num.real_ofSci]; norm_num
-theorem G_pos : (0 : ℝ) < Model.Psf.G := by simp only [Model.Psf.G, Num.real_ofSci]; norm_num
-
-/-- sintef with zero gas flow and positive oil flow: every denominator it evaluates is non-zero -/
-theorem sintef_zero_gas_no_division_by_zero (d0 rhoGas qOil rhoOil rho : ℝ) (hd : 0 < d0) (hq : 0 < qOil)
-    (hr : 0 < rho) (hlt : rhoOil < rho) :
-    ∀ x ∈ sintefDenoms d0 0 rhoGas qOil rhoOil rho, x ≠ 0 := by
+/-- ModelBase: an oil phase with zero mass flow, the gas flowing, and the native Rosin-Rammler pdf ⇒ empty distribution
+    (definedness: `sintef_defined_zero_oil`, `liEtal_defined_zero_oil`) -/
+theorem zero_flow_empty_oil (dmaxGas dpRoot : ℝ) (modelOil nbins : ℕ)
+    (d0 mGas rhoGas rhoOil muOil sigmaOil rho mu : ℝ) (hGas : 0 < mGas) :
+    mbOil dmaxGas dpRoot modelOil 0 nbins d0 mGas 0 rhoGas rhoOil muOil sigmaOil rho mu = some ([], []) := by
   have hz : isZero (0 : ℝ) = true := (isZero_iff 0).mpr rfl
-  have hq0 : isZero qOil = false := isZero_false_of_ne hq.ne'
-  have hpi := pi_pos
-  have hG := G_pos
-  have hroot : 0 < (Model.Psf.G * (rho - rhoOil) / rho * d0) ^ ((1 : ℝ) / 2) :=
-    Real.rpow_pos_of_pos (by have := sub_pos.mpr hlt; positivity) _
-  have hUn : 0 < 4 * qOil / (Model.Psf.pi * d0 ^ 2) := by positivity
-  intro x hx
-  simp only [sintefDenoms, sintefUn, hz, hq0, Bool.false_or, Bool.or_true, if_true, Bool.false_eq_true, if_false,
-    Num.real_rpow, Num.real_npow, Num.real_ofNat, Num.real_one, Num.real_zero, List.mem_cons, List.mem_nil_iff,
-    or_false, zero_add] at hx
-  rcases hx with rfl | rfl | rfl | rfl | rfl
-  · exact hq.ne'
-  · positivity
-  · exact hr.ne'
-  · exact hroot.ne'
-  · exact (div_pos hUn hroot).ne'
+  by_cases hm : modelOil = 0 <;>
+    simp [mbOil, hm, sintef, sintefQ, sintefModel, liEtal, liEtalModel, mass2vol, rrFit, getDist, hz, Num.real_sum]
 
-/-- sintef with zero oil flow and positive gas flow -/
-theorem sintef_zero_oil_no_division_by_zero (d0 qGas rhoGas rhoOil rho : ℝ) (hd : 0 < d0) (hq : 0 < qGas)
-    (hr : 0 < rho) (hlt : rhoGas < rho) :
-    ∀ x ∈ sintefDenoms d0 qGas rhoGas 0 rhoOil rho, x ≠ 0 := by
+/-- … with conversion to lognormal (`rr2ln` on the zero median: *partial* in the same sense as above) -/
+theorem zero_flow_empty_oil_converted_partial (dmaxGas dpRoot : ℝ) (modelOil nbins : ℕ)
+    (d0 mGas rhoGas rhoOil muOil sigmaOil rho mu : ℝ) (hGas : 0 < mGas) :
+    mbOil dmaxGas dpRoot modelOil 1 nbins d0 mGas 0 rhoGas rhoOil muOil sigmaOil rho mu = some ([], []) := by
   have hz : isZero (0 : ℝ) = true := (isZero_iff 0).mpr rfl
-  have hpi := pi_pos
-  have hG := G_pos
-  have hroot : 0 < (Model.Psf.G * (rho - rhoGas) / rho * d0) ^ ((1 : ℝ) / 2) :=
-    Real.rpow_pos_of_pos (by have := sub_pos.mpr hlt; positivity) _
-  have hUn : 0 < 4 * qGas / (Model.Psf.pi * d0 ^ 2) := by positivity
-  intro x hx
-  simp only [sintefDenoms, sintefUn, hz, Bool.true_or, if_true,
-    Num.real_rpow, Num.real_npow, Num.real_ofNat, Num.real_one, Num.real_zero, List.mem_cons, List.mem_nil_iff,
-    or_false, add_zero] at hx
-  rcases hx with rfl | rfl | rfl | rfl | rfl
-  · exact hq.ne'
-  · positivity
-  · exact hr.ne'
-  · exact hroot.ne'
-  · exact (div_pos hUn hroot).ne'
+  by_cases hm : modelOil = 0 <;>
+    simp [mbOil, hm, sintef, sintefQ, sintefModel, liEtal, liEtalModel, mass2vol, rrFit, rr2ln, getDist, hz, Num.real_sum]
 
-/-- li_etal evaluates no zero denominator before it looks at the flow of the requested phase — for zero flow of
-    either phase or of both (the exit velocity is `4 (q_gas + q_oil) / (π d0²)`; the divisions of `li_etal_d50` are
-    only reached when the requested phase flows) -/
-theorem liEtal_no_division_by_zero (d0 qGas qOil : ℝ) (fp : ℕ) (hd : 0 < d0) :
-    ∀ x ∈ liEtalDenoms d0 qGas qOil fp, x ≠ 0 := by
-  have hpi := pi_pos
-  intro x hx
-  simp only [liEtalDenoms, Num.real_npow, List.mem_cons, List.mem_nil_iff, or_false] at hx
-  subst hx
-  positivity
+/-! ## "never a division by zero"
+
+  The definedness predicate is NOT a separate list of denominators: it is the model function itself, elaborated at the
+  instance `Chk` (Lemmas/C16.lean) of the same class `Num` at which it is elaborated for `Float` (driver) and `ℝ` (theorems
+  above).  At `Chk` every value carries the conjunction of the domain conditions of all operations that produced it
+  (divisor ≠ 0, log argument > 0, sqrt argument ≥ 0, power base > 0 or base = 0 with exponent ≥ 0).  `ok4` / `ok5` collect
+  the conditions of the result tuple, `allOk (…Aux …)` those of the values that do not flow into the result (operands of
+  `if` tests, eagerly computed quantities) — listed once, as model terms, in Model/Psf.lean.  `inp x` is a given input.
+  Oracles (Grace maximum stable size, fsolve root, methane densities) are inputs. -/
+
+
+
+
+
+
 
 /-- with neither phase flowing li_etal returns the empty parameters (median 0, no maximum stable size) -/
 theorem liEtal_no_flow (dmaxGas d0 rhoGas rhoOil mu_p sigma rho mu : ℝ) (fp : ℕ) :
     (liEtal dmaxGas d0 [0] rhoGas [0] rhoOil mu_p sigma rho mu fp).1 = 0 ∧
     (liEtal dmaxGas d0 [0] rhoGas [0] rhoOil mu_p sigma rho mu fp).2.1 = none := by
   by_cases h : fp = 0 <;> simp [liEtal, liEtalModel, mass2vol, rrFit, Num.real_sum, h]
+
+/-- psf.sintef with ZERO GAS flow and a flowing oil phase, either phase requested, either setting of use_d95: every
+    operation the model evaluates — results and `sintefAux` — is in its domain (no zero divisor, no log / power / root
+    outside its domain).  The predicate is the model itself evaluated at `Chk`, not a separate list. -/
+theorem sintef_defined_zero_gas (dmaxGas dpRoot d0 rhoGas mOil rhoOil mu_p sigma rho mu : ℝ) (fp : ℕ) (useD95 : Bool)
+    (hd : 0 < d0) (hm : 0 < mOil) (hro : 0 < rhoOil) (hlt : rhoOil < rho) (hs : 0 < sigma) :
+    ok4 (sintef (inp dmaxGas) (inp dpRoot) (inp d0) [inp 0] (inp rhoGas) [inp mOil] (inp rhoOil) (inp mu_p) (inp sigma)
+          (inp rho) (inp mu) fp useD95) ∧
+    allOk (sintefAux (inp dmaxGas) (inp dpRoot) (inp d0) [inp 0] (inp rhoGas) [inp mOil] (inp rhoOil) (inp mu_p) (inp sigma)
+          (inp rho) fp) := by
+  obtain ⟨hqok, hqpos⟩ := sintefQ_pos mOil rhoOil hm hro
+  have hr : 0 < rho := hro.trans hlt
+  obtain ⟨u1, u2, u3, u4, u5⟩ := sintefUc_oil_only_ok (inp d0) (inp rhoGas) (sintefQ [inp mOil] (inp rhoOil)) (inp rhoOil) (inp rho)
+    trivial hqok trivial trivial hd hqpos hr hlt
+  simp only [sintef, sintefAux, sintefQ_zero, allOk_append, allOk_cons, allOk_nil, and_true]
+  by_cases hfp : fp = 0
+  · obtain ⟨a, b⟩ := sintefModel_noflow_ok (inp dmaxGas) (inp dpRoot)
+      (sintefUc (inp d0) ⟨0, True⟩ (inp rhoGas) (sintefQ [inp mOil] (inp rhoOil)) (inp rhoOil) (inp rho)) (inp d0) ⟨0, True⟩
+      (inp rhoGas) (inp mu_p) (inp sigma) (inp rho) (inp mu) true useD95 (lt_irrefl 0)
+    simp only [hfp, if_true]
+    exact ⟨a, ⟨u1, u2, u3, u4, u5⟩, b⟩
+  · obtain ⟨a, b⟩ := sintefModel_liquid_ok (inp dmaxGas) (inp dpRoot)
+      (sintefUc (inp d0) ⟨0, True⟩ (inp rhoGas) (sintefQ [inp mOil] (inp rhoOil)) (inp rhoOil) (inp rho)) (inp d0)
+      (sintefQ [inp mOil] (inp rhoOil)) (inp rhoOil) (inp mu_p) (inp sigma) (inp rho) (inp mu) useD95 hqpos
+      trivial u5 trivial trivial trivial trivial trivial hs hlt
+    simp only [hfp, if_false]
+    exact ⟨a, ⟨u1, u2, u3, u4, u5⟩, b⟩
+
+/-- psf.sintef with ZERO OIL flow and a flowing gas phase -/
+theorem sintef_defined_zero_oil (dmaxGas dpRoot d0 mGas rhoGas rhoOil mu_p sigma rho mu : ℝ) (fp : ℕ) (useD95 : Bool)
+    (hd : 0 < d0) (hm : 0 < mGas) (hrg : 0 < rhoGas) (hlt : rhoGas < rho) (hs : 0 < sigma) :
+    ok4 (sintef (inp dmaxGas) (inp dpRoot) (inp d0) [inp mGas] (inp rhoGas) [inp 0] (inp rhoOil) (inp mu_p) (inp sigma)
+          (inp rho) (inp mu) fp useD95) ∧
+    allOk (sintefAux (inp dmaxGas) (inp dpRoot) (inp d0) [inp mGas] (inp rhoGas) [inp 0] (inp rhoOil) (inp mu_p) (inp sigma)
+          (inp rho) fp) := by
+  obtain ⟨hqok, hqpos⟩ := sintefQ_pos mGas rhoGas hm hrg
+  have hr : 0 < rho := hrg.trans hlt
+  obtain ⟨u1, u2, u3, u4, u5⟩ := sintefUc_gas_only_ok (inp d0) (sintefQ [inp mGas] (inp rhoGas)) (inp rhoGas) (inp rhoOil) (inp rho)
+    trivial hqok trivial trivial hd hqpos hr hlt
+  simp only [sintef, sintefAux, sintefQ_zero, allOk_append, allOk_cons, allOk_nil, and_true]
+  by_cases hfp : fp = 0
+  · obtain ⟨a, b⟩ := sintefModel_gas_ok (inp dmaxGas) (inp dpRoot)
+      (sintefUc (inp d0) (sintefQ [inp mGas] (inp rhoGas)) (inp rhoGas) ⟨0, True⟩ (inp rhoOil) (inp rho)) (inp d0)
+      (sintefQ [inp mGas] (inp rhoGas)) (inp rhoGas) (inp mu_p) (inp sigma) (inp rho) (inp mu) useD95 hqpos
+      trivial trivial u5 trivial trivial trivial trivial hs
+    simp only [hfp, if_true]
+    exact ⟨a, ⟨u1, u2, u3, u4, u5⟩, b⟩
+  · obtain ⟨a, b⟩ := sintefModel_noflow_ok (inp dmaxGas) (inp dpRoot)
+      (sintefUc (inp d0) (sintefQ [inp mGas] (inp rhoGas)) (inp rhoGas) ⟨0, True⟩ (inp rhoOil) (inp rho)) (inp d0) ⟨0, True⟩
+      (inp rhoOil) (inp mu_p) (inp sigma) (inp rho) (inp mu) false useD95 (lt_irrefl 0)
+    simp only [hfp, if_false]
+    exact ⟨a, ⟨u1, u2, u3, u4, u5⟩, b⟩
+
+
+/-- psf.li_etal (with li_etal_model, li_etal_d50) with ZERO GAS flow and a flowing oil phase, either phase requested:
+    results and `liEtalAux` are defined -/
+theorem liEtal_defined_zero_gas (dmaxGas d0 rhoGas mOil rhoOil mu_p sigma rho mu : ℝ) (fp : ℕ)
+    (hd : 0 < d0) (hm : 0 < mOil) (hro : 0 < rhoOil) (hlt : rhoOil < rho) (hs : 0 < sigma) (hsr : sigma < rho) (hmu : 0 ≤ mu_p) :
+    ok4 (liEtal (inp dmaxGas) (inp d0) [inp 0] (inp rhoGas) [inp mOil] (inp rhoOil) (inp mu_p) (inp sigma) (inp rho) (inp mu) fp) ∧
+    allOk (liEtalAux (inp d0) [inp 0] (inp rhoGas) [inp mOil] (inp rhoOil) (inp sigma) (inp rho) fp) := by
+  obtain ⟨hqok, hqpos⟩ := mass2vol_pos mOil rhoOil hm hro
+  have hr : 0 < rho := hro.trans hlt
+  have hUok := liEtalUc_ok (inp d0) ⟨0, True⟩ (mass2vol [inp mOil] (inp rhoOil)) fp trivial trivial hqok hd
+  have hUpos := liEtalUc_val_pos (inp d0) ⟨0, True⟩ (mass2vol [inp mOil] (inp rhoOil)) fp hd (by simpa using hqpos)
+  simp only [liEtal, liEtalAux, mass2vol_zero', allOk_append, allOk_cons, allOk_nil, and_true, chk_lt, chk_zero, lt_irrefl, if_false]
+  by_cases hfp : fp = 0
+  · simp only [hfp, if_true, allOk_nil, and_true]
+    exact ⟨liEtalModel_noflow_ok _ _ _ _ _ _ _ _ _ _ (lt_irrefl 0), hfp ▸ hUok⟩
+  · simp only [hfp, if_false, hqpos, if_true, allOk_cons, allOk_nil, and_true]
+    refine ⟨liEtalModel_flow_ok _ _ _ _ _ _ _ _ _ false hqpos trivial hUok trivial trivial trivial trivial trivial hUpos hd hro hmu hs hr hsr
+      (fun _ => hlt), hUok, ?_⟩
+    exact deMaxOil_ok (inp sigma) (inp rhoOil) (inp rho) trivial trivial trivial hsr hro.le
+
+/-- psf.li_etal with ZERO OIL flow and a flowing gas phase -/
+theorem liEtal_defined_zero_oil (dmaxGas d0 mGas rhoGas rhoOil mu_p sigma rho mu : ℝ) (fp : ℕ)
+    (hd : 0 < d0) (hm : 0 < mGas) (hrg : 0 < rhoGas) (hr : 0 < rho) (hs : 0 < sigma) (hsr : sigma < rho) (hmu : 0 ≤ mu_p) :
+    ok4 (liEtal (inp dmaxGas) (inp d0) [inp mGas] (inp rhoGas) [inp 0] (inp rhoOil) (inp mu_p) (inp sigma) (inp rho) (inp mu) fp) ∧
+    allOk (liEtalAux (inp d0) [inp mGas] (inp rhoGas) [inp 0] (inp rhoOil) (inp sigma) (inp rho) fp) := by
+  obtain ⟨hqok, hqpos⟩ := mass2vol_pos mGas rhoGas hm hrg
+  have hUok := liEtalUc_ok (inp d0) (mass2vol [inp mGas] (inp rhoGas)) ⟨0, True⟩ fp trivial hqok trivial hd
+  have hUpos := liEtalUc_val_pos (inp d0) (mass2vol [inp mGas] (inp rhoGas)) ⟨0, True⟩ fp hd (by simpa using hqpos)
+  simp only [liEtal, liEtalAux, mass2vol_zero', allOk_append, allOk_cons, allOk_nil, and_true, chk_lt, chk_zero, lt_irrefl, if_false]
+  by_cases hfp : fp = 0
+  · simp only [hfp, if_true, hqpos, allOk_cons, allOk_nil, and_true]
+    refine ⟨liEtalModel_flow_ok _ _ _ _ _ _ _ _ _ true hqpos trivial (hfp ▸ hUok) trivial trivial trivial trivial trivial (hfp ▸ hUpos) hd hrg hmu hs hr hsr
+      (fun h => by cases h), hfp ▸ hUok, ?_⟩
+    exact deMaxOil_ok (inp sigma) (inp rhoGas) (inp rho) trivial trivial trivial hsr hrg.le
+  · simp only [hfp, if_false, allOk_nil, and_true]
+    exact ⟨liEtalModel_noflow_ok _ _ _ _ _ _ _ _ _ _ (lt_irrefl 0), hUok⟩
+
+/-- psf.li_etal with NEITHER phase flowing (since fix 9f1b754): nothing outside its domain is evaluated -/
+theorem liEtal_defined_no_flow (dmaxGas d0 rhoGas rhoOil mu_p sigma rho mu : ℝ) (fp : ℕ) (hd : 0 < d0) :
+    ok4 (liEtal (inp dmaxGas) (inp d0) [inp 0] (inp rhoGas) [inp 0] (inp rhoOil) (inp mu_p) (inp sigma) (inp rho) (inp mu) fp) ∧
+    allOk (liEtalAux (inp d0) [inp 0] (inp rhoGas) [inp 0] (inp rhoOil) (inp sigma) (inp rho) fp) := by
+  have hUok := liEtalUc_ok (inp d0) ⟨0, True⟩ ⟨0, True⟩ fp trivial trivial trivial hd
+  simp only [liEtal, liEtalAux, mass2vol_zero', allOk_append, allOk_cons, allOk_nil, and_true, chk_lt, chk_zero, lt_irrefl, if_false]
+  by_cases hfp : fp = 0
+  · simp only [hfp, if_true, allOk_nil, and_true]
+    exact ⟨liEtalModel_noflow_ok _ _ _ _ _ _ _ _ _ _ (lt_irrefl 0), hfp ▸ hUok⟩
+  · simp only [hfp, if_false, allOk_nil, and_true]
+    exact ⟨liEtalModel_noflow_ok _ _ _ _ _ _ _ _ _ _ (lt_irrefl 0), hUok⟩
+
+
+/-- psf.wang_etal (with wang_etal_model) with ZERO GAS flow and a flowing liquid: results and `wangAux` are defined
+    (rhoA < rhoB: the methane density of the speed-of-sound estimate increases with pressure) -/
+theorem wang_defined_zero_gas (dmaxGas rhoA rhoB d0 rho_g mu_g sigma_g rho mu mL rho_l P : ℝ)
+    (hd : 0 < d0) (hm : 0 < mL) (hl : 0 < rho_l) (hP : 0 < P) (hAB : rhoA < rhoB) :
+    ok5 (wang (inp dmaxGas) (inp rhoA) (inp rhoB) (inp d0) [inp 0] (inp rho_g) (inp mu_g) (inp sigma_g) (inp rho) (inp mu)
+          [inp mL] (inp rho_l) (inp P)) ∧
+    allOk (wangAux (inp dmaxGas) (inp rhoA) (inp rhoB) (inp d0) [inp 0] (inp rho_g) (inp mu_g) (inp sigma_g) (inp rho) (inp mu)
+          [inp mL] (inp rho_l) (inp P)) := by
+  obtain ⟨hqok, hqpos⟩ := wangQl_pos mL rho_l hm hl
+  obtain ⟨hAok, hApos⟩ := wangA_ok (inp d0) trivial hd
+  obtain ⟨haok, hapos⟩ := wangSound_ok rhoA rhoB P hP hAB
+  set Ql := wangQl [inp mL] (inp rho_l) with hQl
+  set A := wangA (inp d0) with hA
+  set a := wangSound (inp rhoA) (inp rhoB) (inp P) with ha
+  have hUgok : ((⟨0, True⟩ + Ql) / A : Chk).ok := by simp [hqok, hAok, hApos.ne']
+  have hUgpos : 0 < ((⟨0, True⟩ + Ql) / A : Chk).val := by simp only [chk_add, chk_div, zero_add]; positivity
+  obtain ⟨hUE, hUEpos, hUEaux⟩ := wangUE_ok _ a hUgok haok hUgpos hapos
+  have hf := lnFit_none_ok (⟨0, True⟩ : Chk) (0.27 : Chk) trivial (by simp)
+  simp only [wang, wangAux, mass2vol_zero', ← hQl, ← hA, ← ha, chk_lt, chk_zero, lt_irrefl, if_false, wangModel, ok5, okOpt,
+    allOk_append, allOk_cons, allOk_nil, and_true, hqpos, if_true]
+  refine ⟨⟨hf.1, trivial, ?_, trivial, hf.2⟩, ⟨?_, hAok, hUgok, haok, hUE⟩, hUEaux⟩
+  · simp only [chk_mul, inp_ok, true_and]; exact ⟨hAok, hUE⟩
+  · simp only [chk_add, chk_div, zero_add, true_and]; exact ⟨hqok, hqpos.ne'⟩
+
+/-- psf.wang_etal with ZERO LIQUID flow and a flowing gas phase (n = 1) -/
+theorem wang_defined_zero_liquid (dmaxGas rhoA rhoB d0 mG rho_g mu_g sigma_g rho mu rho_l P : ℝ)
+    (hd : 0 < d0) (hm : 0 < mG) (hg : 0 < rho_g) (hlt : rho_g < rho) (hs : 0 < sigma_g) (hdm : 0 < dmaxGas)
+    (hP : 0 < P) (hAB : rhoA < rhoB) :
+    ok5 (wang (inp dmaxGas) (inp rhoA) (inp rhoB) (inp d0) [inp mG] (inp rho_g) (inp mu_g) (inp sigma_g) (inp rho) (inp mu)
+          [inp 0] (inp rho_l) (inp P)) ∧
+    allOk (wangAux (inp dmaxGas) (inp rhoA) (inp rhoB) (inp d0) [inp mG] (inp rho_g) (inp mu_g) (inp sigma_g) (inp rho) (inp mu)
+          [inp 0] (inp rho_l) (inp P)) := by
+  obtain ⟨hqok, hqpos⟩ := mass2vol_pos mG rho_g hm hg
+  obtain ⟨hAok, hApos⟩ := wangA_ok (inp d0) trivial hd
+  obtain ⟨haok, hapos⟩ := wangSound_ok rhoA rhoB P hP hAB
+  set Qg := mass2vol [inp mG] (inp rho_g) with hQg
+  set A := wangA (inp d0) with hA
+  set a := wangSound (inp rhoA) (inp rhoB) (inp P) with ha
+  have hnok : (Qg / (Qg + ⟨0, True⟩) : Chk).ok := by
+    simp only [chk_add, chk_div, add_zero, and_true]; exact ⟨hqok, hqok, hqpos.ne'⟩
+  have hnval : (Qg / (Qg + ⟨0, True⟩) : Chk).val = 1 := by
+    simp only [chk_add, chk_div, add_zero]; exact div_self hqpos.ne'
+  have hUgok : ((Qg + ⟨0, True⟩) / A : Chk).ok := by
+    simp only [chk_add, chk_div, and_true]; exact ⟨hqok, hAok, hApos.ne'⟩
+  have hUgpos : 0 < ((Qg + ⟨0, True⟩) / A : Chk).val := by simp only [chk_add, chk_div, add_zero]; positivity
+  obtain ⟨hUE, hUEpos, hUEaux⟩ := wangUE_ok _ a hUgok haok hUgpos hapos
+  obtain ⟨d1, d2, d3, d4⟩ := wangD50_gas_only_ok A (Qg / (Qg + ⟨0, True⟩)) (wangUE ((Qg + ⟨0, True⟩) / A) a) (inp rho_g) (inp mu_g)
+    (inp sigma_g) ⟨0, True⟩ (inp rho_l) (inp rho) (inp mu) hAok hnok hUE trivial trivial trivial trivial trivial hnval hApos hUEpos hg hlt hs
+  obtain ⟨f1, f2, f3⟩ := lnFit_some_ok _ (inp dmaxGas) (0.27 : Chk) d1 trivial (by simp) d2 hdm
+  simp only [wang, wangAux, wangQl_zero, ← hQg, ← hA, ← ha, chk_lt, chk_zero, lt_irrefl, if_false, hqpos, if_true, wangModel, hUEpos,
+    ok5, okOpt, allOk_append, allOk_cons, allOk_nil, and_true]
+  exact ⟨⟨f1, d3, d4, trivial, f2⟩, ⟨⟨hnok, hAok, hUgok, haok, hUE⟩, hUEaux⟩, f3⟩
+
 
 /-! ## ModelBase: model_gas = 'wang_etal' with pdf_gas = 'rosin-rammler' -/
 
@@ -371,6 +520,7 @@ theorem wang_rosin_rammler_yields_distribution (dmaxGas rhoA rhoB : ℝ) (nbins 
 
 /-! ## legacy truncation (sintef.rosin_rammler) conserves the total mass flux -/
 
+/-- (helper, not a clause of the property) -/
 theorem truncate_conserves (dmax : ℝ) (de md : List ℝ) (h : de.length = md.length) :
     (truncate dmax de md).2.sum = md.sum ∧ (truncate dmax de md).1.length = de.length ∧
       (truncate dmax de md).2.length = md.length := by
@@ -404,31 +554,11 @@ theorem legacy_truncation_total (nbins : ℕ) (d50 mdTotal sigma rho_p rho : ℝ
 
 
 
-/-- li_etal never applies the d95 rule: for a flowing phase the returned median is the raw correlation value,
+/-- (helper, not a clause of the property) li_etal never applies the d95 rule: for a flowing phase the returned median is the raw correlation value,
     whatever the maximum stable size -/
 theorem liEtal_median_uncapped (dmaxGas Uc d0 q rho_p mu_p sigma rho mu : ℝ) (isGas : Bool) (hq : 0 < q) :
     (liEtalModel dmaxGas Uc d0 q rho_p mu_p sigma rho mu isGas).1 = liEtalD50 Uc d0 rho_p mu_p sigma rho isGas := by
   simp [liEtalModel, hq, rrFit]
-
-/-- lower bound of the Li et al. correlation for liquids at Weber number ≤ 1: d50 ≥ 14.05·dc -/
-theorem liEtalD50_ge (Uc d0 rho_p mu_p sigma rho : ℝ) (hd0 : 0 < d0) (hmu : 0 ≤ mu_p) (hsig : 0 < sigma) (hrho : 0 < rho)
-    (hUc : 0 < Uc) (hdc : ¬ deMaxOil sigma rho_p rho < d0) (hWe : rho * Uc ^ 2 * d0 / sigma ≤ 1) :
-    14.05 * d0 ≤ liEtalD50 Uc d0 rho_p mu_p sigma rho false := by
-  simp only [liEtalD50, hdc, if_false, Bool.false_eq_true, Num.real_rpow, Num.real_npow, Num.real_sqrt, Num.real_ofSci,
-    Num.real_ofNat, Num.real_one]
-  have hWepos : 0 < rho * Uc ^ 2 * d0 / sigma := by positivity
-  have h1 : (1 : ℝ) ≤ (1 + 10 * (mu_p / Real.sqrt (rho_p * sigma * d0))) ^ (0.460 : ℝ) :=
-    Real.one_le_rpow (by have := Real.sqrt_nonneg (rho_p * sigma * d0); have : 0 ≤ mu_p / Real.sqrt (rho_p * sigma * d0) := div_nonneg hmu this; linarith) (by norm_num)
-  have h2 : (1 : ℝ) ≤ (rho * Uc ^ 2 * d0 / sigma) ^ (-0.518 : ℝ) :=
-    Real.one_le_rpow_of_pos_of_le_one_of_nonpos hWepos hWe (by norm_num)
-  have h3 : (14.05 : ℝ) ≤ 14.05 * (1 + 10 * (mu_p / Real.sqrt (rho_p * sigma * d0))) ^ (0.460 : ℝ) *
-      (rho * Uc ^ 2 * d0 / sigma) ^ (-0.518 : ℝ) := by
-    have : (14.05 : ℝ) * 1 * 1 ≤ 14.05 * (1 + 10 * (mu_p / Real.sqrt (rho_p * sigma * d0))) ^ (0.460 : ℝ) *
-        (rho * Uc ^ 2 * d0 / sigma) ^ (-0.518 : ℝ) := by
-      apply mul_le_mul _ h2 (by norm_num) (by positivity)
-      exact mul_le_mul_of_nonneg_left h1 (by norm_num)
-    linarith
-  exact mul_le_mul_of_nonneg_right h3 hd0.le
 
 
 /-- WITNESS (negation of "after fitting, d95 ≤ maximum stable size" for the li_etal driver): oil only,
